@@ -1387,3 +1387,215 @@ Proof.
     apply (Permutation_cons_inv (a := mkentry tag' nr INVALID_LENGTH)).
     eapply Permutation_trans; [apply Permutation_sym; exact H1|exact Habs].
 Qed.
+
+(* ------------------------------------------------------------------------------------------ *)
+(** * Observers, and the step theorem *)
+
+Lemma obs_tag_facts : forall t, obs_tag t = true -> uint16 t = true /\ t <> 1.
+Proof.
+  intros t H. unfold obs_tag in H. repeat rewrite andb_true_iff in H. destruct H as [[[Hu H1] _] _].
+  split; auto. apply negb_true_iff in H1. apply Z.eqb_neq in H1. intros ->. apply H1. reflexivity.
+Qed.
+
+Lemma findall_exact : forall st fuel t r dir, t <> 0 -> r <> 0 ->
+  findall st (S fuel) t r 0 0 dir =
+  match tree_da (m_tree st) (BASETAG t) r with Some p => [dd_triple (slot st p)] | None => [] end.
+Proof.
+  intros st fuel t r dir Ht Hr. cbn [findall]. rewrite hfind_exact by auto.
+  destruct (tree_da (m_tree st) (BASETAG t) r); auto.
+  destruct (Z.eqb_spec t 0); [contradiction|]. destruct (Z.eqb_spec r 0); [contradiction|]. reflexivity.
+Qed.
+
+Lemma select_exact : forall st s t r, Inv st -> Permutation (abs st) s -> t <> 0 -> r <> 0 ->
+  s_select s t r = match tree_da (m_tree st) (BASETAG t) r with Some p => [entry_of (slot st p)] | None => [] end.
+Proof.
+  intros st s t r I Hp Ht Hr. unfold s_select, DFTAG_WILDCARD, DFREF_WILDCARD.
+  destruct (Z.eqb_spec t 0); [contradiction|]. destruct (Z.eqb_spec r 0); [contradiction|]. cbn [negb andb].
+  rewrite (lookup_agree st s t r I Hp). destruct (tree_da (m_tree st) (BASETAG t) r); reflexivity.
+Qed.
+
+Lemma select_wild : forall s t r, (t = 0 \/ r = 0) ->
+  s_select s t r = filter (fun e => tag_matches t e && ref_matches r e) s.
+Proof.
+  intros s t r H. unfold s_select, DFTAG_WILDCARD, DFREF_WILDCARD.
+  destruct H as [-> | ->]; cbn [Z.eqb negb andb]; auto. rewrite andb_false_r. reflexivity.
+Qed.
+
+Lemma filter_perm : forall (g : entry -> bool) a b, Permutation a b -> Permutation (filter g a) (filter g b).
+Proof.
+  intros g a b H. induction H; cbn [filter]; auto.
+  - destruct (g x); auto.
+  - destruct (g x), (g y); auto. apply perm_swap.
+  - eapply Permutation_trans; eauto.
+Qed.
+
+Lemma hfind_wild_start : forall st t r, Inv st -> t <> DFTAG_NULL -> (t = 0 \/ r = 0) ->
+  (match hfind st t r 0 0 DF_FORWARD with Some _ => 1 | None => 0 end) =
+  (match filter (spec_match t r) (m_slots st) with [] => 0 | _ => 1 end).
+Proof.
+  intros st t r Iv Ht Hw. destruct (Inv_inv st Iv) as (_ & Hidx & _).
+  pose proof (hfind_cursor st t r None DF_FORWARD Hidx I Hw) as Hc. cbn [cur_tag cur_ref] in Hc. rewrite Hc.
+  rewrite find_wild_fwd. cbn [cstart].
+  rewrite (find_fwd_ext_gen _ _ (fun d => match_fwd_spec t r d Ht Hw)).
+  pose proof (find_from (spec_match t r) (m_slots st) 0) as H. cbn [skipn] in H.
+  destruct (find_fwd (spec_match t r) (m_slots st) 0 0).
+  - destruct H as (_ & _ & ->). reflexivity.
+  - rewrite H. reflexivity.
+Qed.
+
+Lemma nonempty_perm : forall (a b : list entry), Permutation a b ->
+  (match a with [] => 0 | _ => 1 end) = (match b with [] => 0 | _ => 1 end).
+Proof.
+  intros a b H. pose proof (Permutation_length H) as L. destruct a, b; simpl in L; auto; lia.
+Qed.
+
+Definition feed (o : op) (rm : res) : op :=
+  match o, rm with
+  | ONewref _, RVal v => ONewref v
+  | OTagnewref t _, RVal v => OTagnewref t v
+  | _, _ => o
+  end.
+
+Definition res_agree (o : op) (rm rs : res) : Prop :=
+  match o with
+  | ONewref _ | OTagnewref _ _ => rs = ROk
+  | OFindall _ _ _ => exists lm ls, rm = RList lm /\ rs = RList ls /\ Permutation lm ls
+  | _ => rm = rs
+  end.
+
+Lemma open_rel : forall st n s s' rs st' rm, m_step st (OOpen n) = (st', rm) -> s_step s (OOpen n) = (s', rs) ->
+  rs <> RNoDomain -> rel st' s' /\ rm = rs.
+Proof.
+  intros st n s s' rs st' rm Hm Hs Hnd. cbn [s_step] in Hs.
+  destruct ((n <? 0) || (32767 <? n)) eqn:E; [apply pair_equal_spec in Hs; destruct Hs as [_ <-]; congruence|].
+  apply orb_false_iff in E. destruct E as [E1 _]. apply Z.ltb_ge in E1.
+  apply pair_equal_spec in Hs. destruct Hs as [<- <-].
+  cbn [m_step] in Hm. unfold hopen_create in Hm. destruct (Z.ltb_spec n 0); [lia|].
+  destruct (htpinit_Inv n E1) as (I0 & Habs0 & Ht0 & _).
+  destruct (hput_new (htpinit n) DFTAG_VERSION 1 LIBVER_LEN I0 eq_refl eq_refl ltac:(discriminate) ltac:(discriminate)
+              ltac:(discriminate) ltac:(unfold MAX_REF; lia) ltac:(unfold LIBVER_LEN; lia)) as (st1 & E & I1 & Habs & _).
+  { rewrite Ht0. reflexivity. }
+  rewrite E in Hm. apply pair_equal_spec in Hm. destruct Hm as [<- <-]. split; [|reflexivity].
+  split; [exact I1|]. rewrite Habs0 in Habs. exact Habs.
+Qed.
+
+(** inv_step: every operation of a history preserves the invariant and commutes with the specification *)
+Theorem inv_step_lemma : forall st s o st' rm s' rs,
+  rel st s -> m_step st o = (st', rm) -> s_step s (feed o rm) = (s', rs) -> rs <> RNoDomain ->
+  rel st' s' /\ res_agree o rm rs.
+Proof.
+  intros st s o st' rm s' rs R Hm Hs Hnd. pose proof R as [I Hperm].
+  destruct o; cbn [feed res_agree] in *.
+  - (* open *) eapply open_rel; eauto.
+  - (* reopen *)
+    cbn [m_step s_step] in *. destruct (hreopen_spec st I) as (st2 & E & I2 & S2 & _). rewrite E in Hm.
+    apply pair_equal_spec in Hm. destruct Hm as [<- <-]. apply pair_equal_spec in Hs. destruct Hs as [<- <-].
+    split; [|reflexivity]. split; [exact I2|]. unfold abs. rewrite S2. exact Hperm.
+  - (* cache *)
+    cbn [m_step s_step] in *. destruct (hcache_spec st (negb (b =? 0)) I) as (I2 & S2).
+    apply pair_equal_spec in Hm. destruct Hm as [<- <-]. apply pair_equal_spec in Hs. destruct Hs as [<- <-].
+    split; [|reflexivity]. split; [exact I2|]. unfold abs. rewrite S2. exact Hperm.
+  - (* sync *)
+    cbn [m_step s_step] in *. destruct (hisync_spec st I) as (I2 & S2 & _).
+    apply pair_equal_spec in Hm. destruct Hm as [<- <-]. apply pair_equal_spec in Hs. destruct Hs as [<- <-].
+    split; [|reflexivity]. split; [exact I2|]. unfold abs. rewrite S2. exact Hperm.
+  - (* put *) eapply put_step; eauto.
+  - (* dup *) eapply dup_step; eauto.
+  - (* del *) eapply del_step; eauto.
+  - (* reuse *) eapply reuse_step; eauto.
+  - (* newref *)
+    cbn [m_step] in Hm. destruct (hnewref st) as [st1 v1] eqn:E. apply pair_equal_spec in Hm. destruct Hm as [<- <-].
+    destruct (hnewref_Inv _ _ _ I E) as (I2 & S2).
+    destruct (observers_refine_lemma st s (Inv_inv st I) Hperm) as (_ & _ & Hn & _).
+    destruct (Hn 0 st1 v1) as (Hok & _). { cbn [m_step]. rewrite E. reflexivity. }
+    cbn [s_step] in Hs, Hok. apply pair_equal_spec in Hs. destruct Hs as [<- <-]. cbn [snd] in Hok.
+    split; [|exact Hok]. split; [exact I2|]. unfold abs. rewrite S2. exact Hperm.
+  - (* tagnewref *)
+    cbn [m_step] in Hm. destruct (htagnewref st t) as [st1 v1] eqn:E. apply pair_equal_spec in Hm. destruct Hm as [<- <-].
+    destruct (htagnewref_Inv _ _ _ _ I E) as (I2 & S2).
+    cbn [s_step] in Hs.
+    destruct (mut_tag t || (BASETAG t =? DFTAG_VERSION) && uint16 t) eqn:Edom;
+      [|cbn [negb] in Hs; apply pair_equal_spec in Hs; destruct Hs as [_ <-]; congruence].
+    cbn [negb] in Hs. apply pair_equal_spec in Hs. destruct Hs as [<- <-].
+    destruct (htagnewref_fresh_lemma _ _ _ _ (proj1 (proj2 (proj2 (proj2 (Inv_inv st I))))) E) as (H1 & H2 & _).
+    rewrite (newref_ok_spec _ (tagref_in_use st (BASETAG t)) v1 (fun x => tagref_used_iff st s t x Hperm) H1 H2).
+    split; [|reflexivity]. split; [exact I2|]. unfold abs. rewrite S2. exact Hperm.
+  - (* number *)
+    cbn [m_step s_step] in *. destruct (obs_tag t) eqn:Eo;
+      [|cbn [negb] in Hs; apply pair_equal_spec in Hs; destruct Hs as [_ <-]; congruence].
+    cbn [negb] in Hs. destruct (Inv_inv st I) as (Hn & _ & _ & _ & Hnf).
+    rewrite (hnumber_exact_lemma st t Hn Eo Hnf) in Hm. rewrite (filter_perm_length _ _ _ Hperm) in Hm.
+    apply pair_equal_spec in Hm. destruct Hm as [<- <-]. apply pair_equal_spec in Hs. destruct Hs as [<- <-]. auto.
+  - (* exist *)
+    cbn [m_step s_step] in *. destruct (obs_tag t && uint16 r) eqn:Eo;
+      [|cbn [negb] in Hs; apply pair_equal_spec in Hs; destruct Hs as [_ <-]; congruence].
+    cbn [negb] in Hs. apply andb_true_iff in Eo. destruct Eo as [Eo _]. destruct (obs_tag_facts t Eo) as (Hu & T1).
+    apply pair_equal_spec in Hm. destruct Hm as [<- <-]. apply pair_equal_spec in Hs. destruct Hs as [<- <-].
+    split; [exact R|]. f_equal.
+    destruct (Z.eq_dec t 0) as [Ht0|Ht0]; [|destruct (Z.eq_dec r 0) as [Hr0|Hr0]].
+    + rewrite (hfind_wild_start st t r I T1 (or_introl Ht0)). rewrite (select_wild s t r (or_introl Ht0)).
+      rewrite <- (nonempty_perm _ _ (filter_perm _ _ _ Hperm)). unfold abs.
+      pose proof (abs_select t r (m_slots st)) as Ha.
+      destruct (filter (spec_match t r) (m_slots st)); cbn [map] in Ha;
+        destruct (filter _ (map entry_of (filter live (m_slots st)))); cbn [map] in Ha; auto; discriminate.
+    + rewrite (hfind_wild_start st t r I T1 (or_intror Hr0)). rewrite (select_wild s t r (or_intror Hr0)).
+      rewrite <- (nonempty_perm _ _ (filter_perm _ _ _ Hperm)). unfold abs.
+      pose proof (abs_select t r (m_slots st)) as Ha.
+      destruct (filter (spec_match t r) (m_slots st)); cbn [map] in Ha;
+        destruct (filter _ (map entry_of (filter live (m_slots st)))); cbn [map] in Ha; auto; discriminate.
+    + rewrite hfind_exact by auto. rewrite (select_exact st s t r I Hperm Ht0 Hr0).
+      destruct (tree_da (m_tree st) (BASETAG t) r); reflexivity.
+  - (* check *)
+    cbn [m_step s_step] in *. destruct (obs_tag t && uint16 r) eqn:Eo;
+      [|cbn [negb] in Hs; apply pair_equal_spec in Hs; destruct Hs as [_ <-]; congruence].
+    cbn [negb] in Hs. apply andb_true_iff in Eo. destruct Eo as [Eo _]. destruct (obs_tag_facts t Eo) as (Hu & T1).
+    unfold DFTAG_NULL, DFTAG_WILDCARD, DFREF_WILDCARD in *. destruct (Z.eqb_spec t 1); [contradiction|]. cbn [orb] in Hm.
+    destruct ((t =? 0) || (r =? 0)).
+    + apply pair_equal_spec in Hm. destruct Hm as [<- <-]. apply pair_equal_spec in Hs. destruct Hs as [<- <-]. auto.
+    + rewrite (lookup_agree st s t r I Hperm) in Hs. rewrite find_exact_tree_da in Hm.
+      apply pair_equal_spec in Hm. destruct Hm as [<- <-]. apply pair_equal_spec in Hs. destruct Hs as [<- <-].
+      split; [exact R|]. destruct (tree_da (m_tree st) (BASETAG t) r); reflexivity.
+  - (* length *)
+    cbn [m_step s_step] in *.
+    destruct (obs_tag t && negb (t =? DFTAG_WILDCARD) && negb (is_special t) && mut_ref r) eqn:Eo;
+      [|cbn [negb] in Hs; apply pair_equal_spec in Hs; destruct Hs as [_ <-]; congruence].
+    cbn [negb] in Hs. repeat rewrite andb_true_iff in Eo. destruct Eo as [[[Eo Ht0] Hns] Hmr].
+    destruct (obs_tag_facts t Eo) as (Hu & T1). apply negb_true_iff in Ht0, Hns. apply Z.eqb_neq in Ht0.
+    unfold mut_ref in Hmr. apply andb_true_iff in Hmr. destruct Hmr as [Hr1 _]. apply Z.leb_le in Hr1.
+    pose proof (nonspecial_base t Hu Hns) as Hb.
+    rewrite (lookup_agree st s t r I Hperm) in Hs.
+    unfold hlength in Hm. cbv zeta in Hm. rewrite Hb in Hm. rewrite hfind_exact in Hm by (unfold DFTAG_WILDCARD in *; lia).
+    destruct (tree_da (m_tree st) (BASETAG t) r) as [p|] eqn:Eda.
+    + destruct (entry_key st p t r I Eda) as (Hk & Hp & Hlive). rewrite (select_live st p I Hp Hlive) in Hm.
+      change (is_special_dd (slot st p)) with (is_special (e_tag (entry_of (slot st p)))) in Hm.
+      destruct (is_special (e_tag (entry_of (slot st p)))).
+      { apply pair_equal_spec in Hs. destruct Hs as [_ <-]. congruence. }
+      rewrite (maxref_bump_id st p I Hp Hlive) in Hm.
+      apply pair_equal_spec in Hm. destruct Hm as [<- <-]. apply pair_equal_spec in Hs. destruct Hs as [<- <-]. auto.
+    + apply pair_equal_spec in Hm. destruct Hm as [<- <-]. apply pair_equal_spec in Hs. destruct Hs as [<- <-]. auto.
+  - (* findall *)
+    cbn [m_step s_step] in *.
+    destruct (obs_tag t && uint16 r && ((d =? DF_FORWARD) || (d =? DF_BACKWARD))) eqn:Eo;
+      [|cbn [negb] in Hs; apply pair_equal_spec in Hs; destruct Hs as [_ <-]; congruence].
+    cbn [negb] in Hs. repeat rewrite andb_true_iff in Eo. destruct Eo as [[Eo _] Hd].
+    destruct (obs_tag_facts t Eo) as (Hu & T1).
+    apply pair_equal_spec in Hm. destruct Hm as [<- <-]. apply pair_equal_spec in Hs. destruct Hs as [<- <-].
+    split; [exact R|]. eexists. eexists. split; [reflexivity|]. split; [reflexivity|].
+    destruct (Z.eq_dec t 0) as [Ht0|Ht0]; [|destruct (Z.eq_dec r 0) as [Hr0|Hr0]].
+    + destruct (find_enumerates_once_lemma st t r (proj1 (proj2 (Inv_inv st I))) T1 (or_introl Ht0)) as (Hf & Hbk).
+      rewrite (select_wild s t r (or_introl Ht0)).
+      apply orb_true_iff in Hd. destruct Hd as [Hd|Hd]; apply Z.eqb_eq in Hd; subst d.
+      * rewrite Hf. apply Permutation_map. apply filter_perm. exact Hperm.
+      * rewrite Hbk. eapply Permutation_trans; [apply Permutation_sym; apply Permutation_rev|].
+        apply Permutation_map. apply filter_perm. exact Hperm.
+    + destruct (find_enumerates_once_lemma st t r (proj1 (proj2 (Inv_inv st I))) T1 (or_intror Hr0)) as (Hf & Hbk).
+      rewrite (select_wild s t r (or_intror Hr0)).
+      apply orb_true_iff in Hd. destruct Hd as [Hd|Hd]; apply Z.eqb_eq in Hd; subst d.
+      * rewrite Hf. apply Permutation_map. apply filter_perm. exact Hperm.
+      * rewrite Hbk. eapply Permutation_trans; [apply Permutation_sym; apply Permutation_rev|].
+        apply Permutation_map. apply filter_perm. exact Hperm.
+    + rewrite findall_exact by auto. rewrite (select_exact st s t r I Hperm Ht0 Hr0).
+      destruct (tree_da (m_tree st) (BASETAG t) r); reflexivity.
+  - (* dump: outside the specification *)
+    cbn [s_step] in Hs. apply pair_equal_spec in Hs. destruct Hs as [_ <-]. congruence.
+Qed.
